@@ -8,6 +8,9 @@ import MPilot.Driver.ProgCodec
 import MPilot.Model.Grammar
 import MPilot.Model.Serialize
 import MPilot.Model.Eems2
+import MPilot.Model.Registry
+import MPilot.Model.Csv
+import MPilot.Model.NetCdf
 
 open MPilot MPilot.Codec
 
@@ -211,6 +214,91 @@ def handleLoad (toks : List String) : String :=
             " ".intercalate (st.memo.map fun (k, v) => hex k ++ "=" ++ hex v) ++ " ; " ++ prog)
   res.getD "bad-load"
 
+/-- `registry <nbuiltin> (<module> <name>)* <nev> (d <module> <name> <impl> | c <nlibs> <lib>*)*` -/
+def handleRegistry (toks : List String) : String :=
+  let res : Option String := do
+    let (nb, r) ← pNat toks
+    let (builtin, r) ← pMany (fun ts => do let (m, r) ← pHex ts; let (n, r) ← pHex r; pure (({ module := m, name := n, impl := 0 } : RegEntry), r)) nb r
+    let (ne, r) ← pNat r
+    let (evs, _) ← pMany (fun ts => do
+      let (t, r) ← pTok ts
+      if t == "d" then do
+        let (m, r) ← pHex r; let (n, r) ← pHex r; let (i, r) ← pNat r
+        pure (RegEv.define { module := m, name := n, impl := i }, r)
+      else if t == "c" then do
+        let (k, r) ← pNat r; let (libs, r) ← pMany pHex k r
+        pure (RegEv.construct libs, r)
+      else none) ne r
+    let outs := runHistory builtin [] evs
+    pure (" ; ".intercalate (outs.map fun o =>
+      match o with
+      | .ok sel =>
+          let items := (sel.map fun e => e.name ++ "=" ++ e.module ++ "#" ++ toString e.impl).toArray.qsort (· < ·) |>.toList
+          "ok " ++ ",".intercalate items
+      | .error d => "dup " ++ ",".intercalate (d.toArray.qsort (· < ·) |>.toList)))
+  res.getD "bad-registry"
+
+/-- `csvread <hex text> <hex field> <missing rat|-> <0/1 integer>` -/
+def handleCsvRead (toks : List String) : String :=
+  match toks with
+  | [ht, hf, m, i] =>
+      match unhex ht, unhex hf with
+      | some text, some field =>
+        let missing := if m == "-" then none else parseRat m
+        match csvRead text.toList field missing (i == "1") with
+        | .ok a => "ok " ++ showArr a
+        | .error .emptyDataFile => "err EmptyDataFile"
+        | .error .headerMissing => "err InvalidDataFile header"
+        | .error (.invalidValue l) => s!"err InvalidDataFile line {l}"
+        | .error (.raw e) => "err raw " ++ e
+        | .error .outside => "outside"
+      | _, _ => "bad-csv"
+  | _ => "bad-csv"
+
+/-- `csvrows <hex text>`: the records the reader yields -/
+def handleCsvRows (toks : List String) : String :=
+  match toks with
+  | [ht] =>
+      match unhex ht with
+      | some text => " | ".intercalate ((csvRows text.toList).map fun r => ",".intercalate (r.map hex))
+      | none => "bad-csv"
+  | _ => "bad-csv"
+
+/-- `csvwrite <nrows> <ncols> <hex cell>*` (row-major, header row first): the text the writer produces -/
+def handleCsvWrite (toks : List String) : String :=
+  let res : Option String := do
+    let (nr, r) ← pNat toks
+    let (nc, r) ← pNat r
+    let (cells, _) ← pMany pHex (nr * nc) r
+    let rows := (List.range nr).map fun i => (cells.drop (i * nc)).take nc
+    pure (hex (String.join (rows.map csvWriteRow)))
+  res.getD "bad-csv"
+
+/-- `ncread <arr|-> <type> <missing rat|->` -/
+def handleNcRead (toks : List String) : String :=
+  match toks with
+  | [a, t, m] =>
+      let var := if a == "-" then some none else (parseArr a).map some
+      let ty : Option NcType := match t with
+        | "Float" => some .float | "Integer" => some .integer | "PositiveFloat" => some .positiveFloat
+        | "PositiveInteger" => some .positiveInteger | "Fuzzy" => some .fuzzy | _ => none
+      match var, ty with
+      | some v, some ty =>
+        match ncRead v ty (if m == "-" then none else parseRat m) with
+        | .ok r => "ok " ++ showArr r
+        | .error .noSuchVariable => "err NoSuchVariable"
+        | .error .invalidPositiveData => "err InvalidPositiveData"
+        | .error .invalidFuzzyData => "err InvalidFuzzyData"
+        | .error (.raw e) => "err raw " ++ e
+      | _, _ => "bad-nc"
+  | _ => "bad-nc"
+
+/-- `ncwrite <arr>*`: the variables as stored (visible form) -/
+def handleNcWrite (toks : List String) : String :=
+  match toks.mapM parseArr with
+  | some rs => " ".intercalate ((ncWrite rs).map showArr)
+  | none => "bad-nc"
+
 def handle (line : String) : String :=
   match (line.trimAscii.toString.splitOn " ").filter (· != "") with
   | "exec" :: rest => handleExec rest
@@ -220,6 +308,12 @@ def handle (line : String) : String :=
   | "parse" :: rest => handleParse rest
   | "ser" :: rest => handleSer rest
   | "load" :: rest => handleLoad rest
+  | "registry" :: rest => handleRegistry rest
+  | "ncread" :: rest => handleNcRead rest
+  | "ncwrite" :: rest => handleNcWrite rest
+  | "csvread" :: rest => handleCsvRead rest
+  | "csvrows" :: rest => handleCsvRows rest
+  | "csvwrite" :: rest => handleCsvWrite rest
   | "ping" :: _ => "pong"
   | _ => "bad-op"
 
